@@ -4,6 +4,7 @@
 mod c04;
 mod c05;
 mod c13;
+mod c14;
 mod codecgen;
 mod inproc;
 mod out;
@@ -74,6 +75,7 @@ fn main() {
             let mut o = out::Out::new();
             match prop.as_str() {
                 "C04" => c04::run(&ctx, &mut o),
+                "C14" => c14::run(&ctx, &mut o),
                 "C13" => c13::run(&ctx, &mut o),
                 "C05" | "C06" => c05::run(&ctx, &mut o, &prop),
                 _ => {
